@@ -133,4 +133,46 @@ ArithFails(c) ==
            c.bound < 0 \/ Cardinality({l \in new : G[l].t \notin
                {"INPUT", "NOT", "LNOT", "RNOT", "IFF", "LIFF", "RIFF", "ALWAYS_TRUE", "ALWAYS_FALSE"}}) <= c.bound>>
      >>)
+
+(***************************************************************************)
+(* Drift (never a verdict): the netlist the generator emitted is compared,  *)
+(* gate by gate in emission order, with the netlist the algorithm model of  *)
+(* ArithAlgo.tla builds for the same operands.  Only cases the driver marks *)
+(* with c.algo (one call, one check) are compared.                          *)
+(***************************************************************************)
+AA == INSTANCE ArithAlgo
+AlgoModel(k) ==      \* [g, out, pool]: model gates, result references (little-endian), operand pool labels
+  LET Refs(lo, n) == [j \in 1 .. n |-> lo + j] IN
+  CASE k.op = "sub" -> LET r == AA!SubTwo(AA!Fresh(Len(k.a) + Len(k.b)), Refs(0, Len(k.a)), Refs(Len(k.a), Len(k.b)))
+                       IN [g |-> r.b.g, out |-> r.out, pool |-> k.a \o k.b]
+    [] k.op = "subc" -> LET r == AA!SubCmp(AA!Fresh(Len(k.a) + Len(k.b)), Refs(0, Len(k.a)), Refs(Len(k.a), Len(k.b)))
+                        IN [g |-> r.b.g, out |-> Append(r.out, r.bal), pool |-> k.a \o k.b]
+    [] k.op = "divmod" -> LET r == AA!DivMod(AA!Fresh(Len(k.a) + Len(k.b)), Refs(0, Len(k.a)), Refs(Len(k.a), Len(k.b)))
+                          IN [g |-> r.b.g, out |-> r.q \o r.r, pool |-> k.a \o k.b]
+    [] k.op = "sqrt" -> LET r == AA!Sqrt(AA!Fresh(Len(k.a)), Refs(0, Len(k.a))) IN [g |-> r.b.g, out |-> r.out, pool |-> k.a]
+    [] k.op = "inc" -> LET r == AA!PlusOne(AA!Fresh(Len(k.a)), Refs(0, Len(k.a)), Len(k.out)) IN [g |-> r.b.g, out |-> r.out, pool |-> k.a]
+    [] k.op = "eq" -> LET r == AA!Equal(AA!Fresh(Len(k.a)), Refs(0, Len(k.a)), k.fits, k.cbits) IN [g |-> r.b.g, out |-> r.out, pool |-> k.a]
+    [] k.op = "add" -> LET r == AA!SumTwoShift(AA!Fresh(Len(k.a) + Len(k.b)), k.shift, Refs(0, Len(k.a)), Refs(Len(k.a), Len(k.b)))
+                       IN [g |-> r.b.g, out |-> r.out, pool |-> k.a \o k.b]
+    [] k.op = "add0" -> LET r == AA!SumTwo(AA!Fresh(Len(k.a) + Len(k.b)), Refs(0, Len(k.a)), Refs(Len(k.a), Len(k.b)))
+                        IN [g |-> r.b.g, out |-> r.out, pool |-> k.a \o k.b]
+    [] k.op = "popcount" -> LET r == AA!SumNBits(AA!Fresh(Len(k.a)), Refs(0, Len(k.a)), k.basis) IN [g |-> r.b.g, out |-> r.out, pool |-> k.a]
+ResultLabels(k) ==
+  CASE k.op = "subc" -> Append(k.out, k.borrow)
+    [] k.op = "divmod" -> k.q \o k.r
+    [] k.op = "eq" -> <<k.out>>
+    [] OTHER -> k.out
+ArithDrift(c) ==
+  IF c.exc # "" \/ ~Has(c, "algo") \/ Len(c.checks) # 1 THEN {}
+  ELSE LET k == c.algo
+           m == AlgoModel(k)
+           new == SelectSeq(c.post.ord, LAMBDA l : l \notin DOMAIN c.pre.g)
+           K == Len(m.pool)
+           Lab(r) == IF r <= K THEN m.pool[r] ELSE new[r - K]
+       IN IF Len(new) # Len(m.g) THEN {"emitted-gate-count-differs-from-the-algorithm-model"}
+          ELSE IF \E j \in DOMAIN new : LET gt == c.post.g[new[j]] IN
+                     gt.t # m.g[j].t \/ Len(gt.o) # Len(m.g[j].o) \/ \E q \in DOMAIN gt.o : gt.o[q] # Lab(m.g[j].o[q])
+               THEN {"emitted-netlist-differs-from-the-algorithm-model"}
+          ELSE IF ResultLabels(k) # [j \in DOMAIN m.out |-> Lab(m.out[j])] THEN {"returned-labels-differ-from-the-algorithm-model"}
+          ELSE {}
 =============================================================================
